@@ -1128,6 +1128,22 @@ func (fr *Frame) applyContract(sp *FuncSpec, name string, sig *types.Signature, 
 		fr.assumeHere(t)
 		e.noteFacts(env, c.Expr, fr.cur.reach)
 	}
+	// a fresh slice result that never leaves the caller keeps its contents across calls to unknown code
+	if rv, ok := fr.curInstrValue(); ok {
+		if sl, isSl := rv.Type().Underlying().(*types.Slice); isSl && e.sliceStaysLocal(rv) {
+			freshRes := false
+			for _, c := range sp.Ensures {
+				if strings.Contains(c.Src, "fresh(result)") || strings.Contains(c.Src, "fresh(result0)") {
+					freshRes = true
+				}
+			}
+			if _, isS := isStruct(sl.Elem()); freshRes && !isS {
+				if _, isA := sl.Elem().Underlying().(*types.Array); !isA {
+					e.localCells = append(e.localCells, localCell{e.elemComp(sl.Elem()), "(s_arr " + res.T + ")"})
+				}
+			}
+		}
+	}
 	for _, c := range sp.Sets {
 		gname := strings.SplitN(c.Key, "[", 2)[0]
 		g, ok := e.specs.Ghosts[gname]
@@ -1746,4 +1762,12 @@ func (e *Engine) dummyType(sig *types.Signature, pkg string, expr string) (t typ
 		return nil
 	}
 	return v.Ty
+}
+
+func (fr *Frame) curInstrValue() (ssa.Value, bool) {
+	if fr.block == nil || fr.idx < 0 || fr.idx >= len(fr.block.Instrs) {
+		return nil, false
+	}
+	v, ok := fr.block.Instrs[fr.idx].(ssa.Value)
+	return v, ok
 }
